@@ -1071,6 +1071,17 @@ class Engine:
             return z3.Exists([p], z3.And(0 <= p, p < cv.c[0], cv.c[1][p] == k))
         raise Unsupported(f"containment in {t}")
 
+    def entailed(self, st, fact):
+        """The quantifier-free part of the path condition entails `fact` (cheap solver query; only `unsat` counts)."""
+        sol = z3.Solver()
+        sol.set("rlimit", 600000)
+        sol.set("timeout", 2000)
+        for a in st.pc:
+            if self._qf(a):
+                sol.add(a)
+        sol.add(z3.Not(fact))
+        return sol.check() == z3.unsat
+
     def key_not_none(self, st, v, node):
         """An Optional scalar used as a dict key in the code: obligation 'is not None', then its value."""
         if isinstance(v, V) and isinstance(v.t, Ty.Opt) and isinstance(v.t.t, Ty._Int) and not self.spec_mode:
